@@ -436,9 +436,6 @@ MutHazards(mu, sig) ==
                                DbType(mu.ftype, Drop(mu.attrs, "related_model"))
              changed == { a \in DOMAIN mu.attrs : AttrValue(old, a) # mu.attrs[a] }
          IN (IF typeChanged /\ "null" \in changed THEN {"typechange-with-null"} ELSE {})
-            \cup (IF ~typeChanged /\ "db_index" \in changed
-                      /\ (changed \cap {"null", "max_length", "unique"}) # {}
-                   THEN {"dbindex-in-rebuild-group"} ELSE {})
     ELSE {}
 
 NoOp == Op("none", FALSE, FALSE, None)
@@ -460,8 +457,7 @@ OpsFold(ops, g, tix) ==
                               !.gdbi = @ \/ op.dbi,
                               !.gmeta = @ \/ (op.t = "change_meta"),
                               !.gdel = IF op.t = "delete_column" THEN @ \cup {op.fld} ELSE @]
-             hz == (IF g2.grb /\ g2.gdbi THEN {"dbindex-in-rebuild-group"} ELSE {})
-                   \cup (IF g2.grb /\ g2.gmeta THEN {"meta-in-rebuild-group"} ELSE {})
+             hz == (IF g2.grb /\ g2.gmeta THEN {"meta-in-rebuild-group"} ELSE {})
                    \cup (IF op.t = "add_column" /\ op.fld \in g1.gdel
                           THEN {"del-add-same-column"} ELSE {})
                    \cup (IF op.rb /\ tix THEN {"tableidx-rebuilt"} ELSE {})
